@@ -1,7 +1,7 @@
 (* Extract/Cmd_c17.v — observation commands of property C17 (model side).
      val <ord> <tree>   ord = `s` (toml::Map = BTreeMap) | `i` (IndexMap, insertion order = order given)
        tree  := value, ASCII:  value := 'L' desc ';' | 'A' value* ']' | 'T' ( 'K' hexkey ';' value )* '}'
-       prints  vdoc=<doc> pdoc=<doc> tdoc=<doc> vdisp=<shape> rb=<value> fix=.. pp=.. dec=.. tfix=.. det=..
+       prints  vdoc=<doc> pdoc=<doc> tdoc=<doc> sdoc=<doc> vdisp=<shape> rb=<value> fix=.. pp=.. dec=.. tfix=.. sdec=.. s2fix=.. det=..
        (the format is described in harness/src/bin/c17.rs, which prints the same line from the TEXT
         the real crates write)
      txt <text>         not modelled (`skip`): the oracle alone judges it *)
@@ -132,11 +132,14 @@ Definition cmd_val (o : morder) (v0 : tv) : bytes :=
     let plain := emit_value_doc false m in
     let pretty := emit_value_doc true m in
     let tdoc := emit_table_doc false m in
+    let sdoc := emit_struct_doc false m in
     let back := decode o plain in
     let tback := decode o tdoc in
+    let sback := decode o sdoc in
     str "vdoc=" ++ show_doc plain ++
     str " pdoc=" ++ show_doc pretty ++
     str " tdoc=" ++ show_doc tdoc ++
+    str " sdoc=" ++ show_doc sdoc ++
     str " vdisp=" ++ show_iv (display_value (TTab m)) ++
     str " rb=" ++ (match back with Some r => show_tv (TTab r) | None => str "ERR" end) ++
     str " fix=" ++ flag (match back with Some r => same_doc (emit_value_doc false r) plain | None => false end) ++
@@ -147,6 +150,14 @@ Definition cmd_val (o : morder) (v0 : tv) : bytes :=
                           | Some r => tv_eqb (sort_tv (TTab r)) (sort_tv (TTab m)) && same_doc (emit_table_doc false r) tdoc
                           | None => false
                           end) ++
+    (* a serializer that keeps its own order: decodes to v; the Value read back prints to a fixed point *)
+    str " sdec=" ++ flag (match sback with Some r => tv_eqb (sort_tv (TTab r)) (sort_tv (TTab m)) | None => false end) ++
+    str " s2fix=" ++ flag (match sback with
+                           | Some r =>
+                             let d2 := emit_value_doc false r in
+                             match decode o d2 with Some r2 => same_doc (emit_value_doc false r2) d2 | None => false end
+                           | None => false
+                           end) ++
     str " det=ok"
   | _ => str "not-a-table:err"      (* write_document: Item::Value(v).into_table() fails -> unsupported type *)
   end.
